@@ -23,6 +23,16 @@ def sh(cmd, cwd=None, env=None, timeout=3000):
     return p.returncode, (p.stdout + p.stderr)
 
 
+def evidence_backup():
+    """evidence files are records of runs on the UNCHANGED tree: a run against a seeded change must not leave its record behind"""
+    return {f.name: f.read_text() for f in (V / "evidence").glob("*.json")}
+
+
+def evidence_restore(saved):
+    for name, text in saved.items():
+        (V / "evidence" / name).write_text(text)
+
+
 def main():
     only = None
     start = None
@@ -36,6 +46,7 @@ def main():
             start = sys.argv[i + 1]
     rc, o = sh("git status --porcelain", cwd="/repo")
     assert o.strip() == "", "/repo is not clean: " + o
+    _saved_evidence = evidence_backup()
     summary = {"caught_with_input": 0, "caught_no_input": 0, "missed": 0, "not_applicable": 0}
     for d in sorted((V / "seeded").iterdir()):
         if not (d / "patch.diff").exists() or (only and d.name not in only):
@@ -82,6 +93,7 @@ def main():
     rc, o = sh("git status --porcelain", cwd="/repo")
     assert o.strip() == "", "/repo left dirty: " + o
     sh("/venv/bin/python harness/regen_all.py", cwd=V)      # Gen/*.lean back to what the unchanged sources say
+    evidence_restore(_saved_evidence)
     print("SUMMARY", json.dumps(summary))
 
 
